@@ -135,9 +135,10 @@ def run(ctx):
         "float_bound": "relative max(n,1)*2^-50, n = number of messages on the bus (per-message rate: 2^-50); checked on every call; for the load "
                        "it is also PROVED (load_float_close) for the modelled IEEE-754 operation order on float_domain",
         "proved_vs_tested": "proved, axiom-free: 19 theorems of Properties/C17.v about the exact-rational model. proved with the standard-library "
-                            "real-number axioms (through Flocq): load_float_close, the float64 error bound of the load w.r.t. IEEE-754 binary64 "
-                            "semantics for Go's operation order. trusted: Go's float64 is IEEE-754 binary64 round-to-nearest-even, int->float64 exact "
-                            "below 2^53. tested on this run, not proved: the bound for the per-message rates and shares, and that the two models "
+                            "real-number axioms (through Flocq), w.r.t. IEEE-754 binary64 semantics for Go's operation order: load_float_close, "
+                            "rate_float_close, rate_float_order / rate_float_strict / model_order_float_sorted (order under rounding), "
+                            "load_float_monotone (same visiting order). trusted: Go's float64 is IEEE-754 binary64 round-to-nearest-even, int->float64 exact "
+                            "below 2^53. tested on this run, not proved: the bound for the float64 shares, and that the two models "
                             "restate utils.go (the exact model is compared call by call; the float model is tied by one bit-exact Example)",
         "degenerate_calls_not_compared": int((re.search(r"DEGENERATE-CALLS-NOT-COMPARED (\d+)", mlog) or [0, 0])[1]),
         "trusted_base": [
@@ -152,8 +153,9 @@ def run(ctx):
     ctx.assumptions = [
         "monotonicity (enlarge a message / shorten a cycle) is proved and holds for 0 < baud only: for a negative baud rate (accepted by Bus.SetBaudrate) it is refuted (monotone_negative_baud_refuted, open findings c17-*-negative-baud); for baud = 0 the load stays 0; the harness checks all three classes",
         "shares are stated for a non-zero total rate only (entries_spec); on the property's domain a message makes the total positive (total_nonzero); an undefined bus type with only empty messages gives total 0 and NaN shares in Go (shares_unknown_type_refuted, open finding c17-nan-unknown-bus-type)",
-        "Go's float64 arithmetic is IEEE-754 binary64 round-to-nearest-even and int->float64 is exact below 2^53 (trusted; load_float_close is about Flocq's semantics of exactly the operation order of utils.go)",
-        "the per-message rates and shares are compared with the exact model within the stated bound on every call but that bound is not proved (only the load's is)",
+        "Go's float64 arithmetic is IEEE-754 binary64 round-to-nearest-even and int->float64 is exact below 2^53 (trusted; the Flocq theorems are about exactly the operation order of utils.go)",
+        "NO FUSED MULTIPLY-ADD: the float model rounds after every operation (x/y, then *1000, then +, then /baud, then *100). The Go specification allows an implementation to fuse x*y+z across operations on some architectures (arm64, ppc64, s390x); this run was on amd64 where the gc compiler does not fuse, and `a/b*1000` followed by `+=` in CalculateBusLoad has the shape tot + (q*1000) that could be fused elsewhere. On such a target the proved bound still holds (a fused operation rounds once instead of twice) but bit-exact agreement with the model does not",
+        "proved for float64 (Flocq): bound of the load, bound of every per-message rate, order under rounding, monotonicity of the float load for the same visiting order. Tested only: the bound of the float64 shares (Percentage), and load monotonicity across two different visiting orders (checked with the n*2^-50 slack)",
         "bus type is BusTypeCAN2A (the only constant the library defines); sizes 0..8, cycle times >= 0, as the property states",
         "map iteration order is an oracle: the model visits the messages in creation order, the theorems hold for every order (load_order_free, each_message_once)",
     ]
